@@ -43,6 +43,10 @@ var c09Fixed = []string{
 	// EOF after CloseConnectionResponse is the orderly end
 	"new:0 start pf:63:0:1:0 shutdown:1 w:1 ps:4:@1:0 r:1 pc rc",
 	"new:0 start pf:63:0:1:0 shutdown:1 w:1 ps:4:@1:0 pc r:1 rc",
+	// a CloseConnection answered by an ERROR_MESSAGE — whatever status it carries, also Success — is a refused shutdown: the
+	// caller gets an error and the client is not closed by it (the connection goes on until the peer ends it)
+	"new:0 start pf:63:0:1:0 shutdown:1 w:1 ps:100:@1:0 r:1 pc rc",
+	"new:0 start pf:63:0:1:0 shutdown:1 w:1 ps:100:@1:101 r:1 pc rc",
 	// more keep-alives than the acknowledgement queue holds while the write loop is parked behind CloseConnection: the
 	// surplus is dropped, the read loop goes on to the CloseConnectionResponse
 	"new:0 start pf:63:0:1:0 shutdown:1 w:1 ps:62:101:0 ps:62:102:0 ps:62:103:0 ps:62:104:0 ps:62:105:0 ps:62:106:0 ps:62:107:0 ps:62:108:0 ps:4:@1:0 r:1 pc rc",
